@@ -246,7 +246,8 @@ fn id(
     _: &mut model::Context,
 ) -> error::Result<model::Value> {
     if node.owner_document().map(|v| v.doc_type()).is_some() {
-        unimplemented!()
+        // Not support `id`.
+        Err(error::Error::NotFoundFunction("id".to_string()))
     } else {
         Ok(model::Value::Node(vec![]))
     }
